@@ -95,6 +95,19 @@ where
                 &new_value,
             );
 
+            // A `cycle_result` query returns its fallback while it participates in a cycle and
+            // its computed value otherwise. Joining or leaving a cycle therefore changes its
+            // value even when none of its own dependencies changed (they may all have been
+            // backdated), so `changed_at`, which is derived from the dependencies alone, would
+            // tell its dependents that nothing happened. Treat such a switch as a change now.
+            if C::CYCLE_STRATEGY == CycleRecoveryStrategy::FallbackImmediate
+                && !old_memo
+                    .value()
+                    .is_some_and(|old_value| C::values_equal(old_value, &new_value))
+            {
+                completed_query.revisions.changed_at = zalsa.current_revision();
+            }
+
             // Diff the new outputs with the old, to discard any no-longer-emitted
             // outputs and update the tracked struct IDs for seeding the next revision.
             old_memo
